@@ -3,7 +3,7 @@
 (* An element is a record [k, n, role, fl, cls, s, g]: kind, numbers in milli lattice units, *)
 (* per-number role (0 = x-like, 1 = y-like, 2 = length), flags, class tokens, code points of *)
 (* the character data, group number (0 = not inside a <g>).                                  *)
-EXTENDS Lattice
+EXTENDS Lattice, Chars, SequencesExt
 
 IsLine(e) == e.k = "line"
 IsRect(e) == e.k = "rect"
